@@ -94,7 +94,11 @@ pub fn ip_bytes(s: &Seg) -> Vec<u8> {
 /// Ethernet II frame for the segment.
 pub fn eth_bytes(s: &Seg) -> Vec<u8> {
     let ip = ip_bytes(s);
-    let mut f = vec![0x02, 0, 0, 0, 0, 2, 0x02, 0, 0, 0, 0, 1];
+    // MAC addresses vary per connection (symmetric in the direction): first bytes whose high nibble is 4 or 6,
+    // or that equal the loopback signature, must not make an Ethernet frame look like raw IP / NULL framing
+    const FIRST: [u8; 8] = [0x02, 0x48, 0x64, 0x00, 0x1e, 0x45, 0x60, 0xff];
+    let k = (s.src.1 as usize + s.dst.1 as usize) % 8;
+    let mut f = vec![FIRST[k], 0, 0, 0, 0, 2, FIRST[(k + 3) % 8], 0, 0, 0, 0, 1];
     if matches!(s.src.0, IpAddr::V4(_)) {
         f.extend_from_slice(&[0x08, 0x00]);
     } else {
